@@ -66,7 +66,7 @@ func decodeEfaceSlice(buf []byte, l *[]interface{}, elemT reflect.Type, unmarsha
 		if err != nil {
 			return nil, err
 		}
-		if body != nil && elemT != nil {
+		if elemT != nil {
 			elem := reflect.New(elemT)
 			err = unmarshal(body, elem.Interface())
 			if err != nil {
